@@ -172,8 +172,11 @@ impl<Req: VClone, Res, E> ReconnectFuture<Req, Res, E> {
     pub open spec fn wf(&self, tr: Trace<Req, Res, E>) -> bool {
         &&& (self.phase is Calling ==> tr.calls == self.attempt + 1 && tr.done == self.attempt)
         &&& (self.phase matches Phase::Sleeping(s) ==> self.attempt > 0 && tr.calls == self.attempt && tr.done == self.attempt && self.last_error is Some
-                && delay_spec(self.config.policy, self.attempt as usize) == Some(s.d) && tr.slept_since_done == 0)
+                && delay_spec(self.config.policy, self.attempt as usize) == Some(s.d)
+                // the timer has not fired yet, or it has (and the future is waiting for the inner service to become ready)
+                && (tr.slept_since_done == 0 || tr.slept_since_done >= s.d.nanos))
         &&& !(self.phase is Failed)
+        &&& tr.unguarded == 0 && tr.ready_err is None
         &&& (self.config.max_attempts is Some ==> self.attempt <= self.config.max_attempts->0)
         &&& (self.attempt > 0 ==> tr.last_done is Some && tr.last_done->0 is Err && reconnectable(*self.config, tr.last_done->0->Err_0)
                 && (self.phase is Sleeping ==> self.last_error == Some(tr.last_done->0->Err_0)))
@@ -190,7 +193,9 @@ impl<Req: VClone, Res, E> ReconnectFuture<Req, Res, E> {
             old(self).config.max_attempts is Some ==> final(tr).calls <= old(self).config.max_attempts->0 + 1,   // #at_most_max_attempts_plus_one_inner_calls [C16]
             forall|i: int| 0 <= i < final(tr).reqs.len() ==> final(tr).reqs[i] == old(self).request,   // #every_attempt_carries_the_request [C16,C20]
             r matches Poll::Ready(Ok(v)) ==> final(tr).last_done == Some(Ok::<Res, E>(v)) && final(tr).published == Some(enc(ConnectionState::Connected)),   // #success_is_the_last_inner_outcome_and_publishes_connected [C16,C20]
-            r matches Poll::Ready(Err(ReconnectError::ServiceError(e))) ==> final(tr).last_done == Some(Err::<Res, E>(e)) && !reconnectable(*old(self).config, e),   // #other_errors_are_returned_at_once_unchanged [C16,C20]
+            r matches Poll::Ready(Err(ReconnectError::ServiceError(e))) ==> (final(tr).ready_err is None ==> final(tr).last_done == Some(Err::<Res, E>(e)) && !reconnectable(*old(self).config, e)),   // #other_errors_are_returned_at_once_unchanged [C16,C20]
+            r matches Poll::Ready(Err(ReconnectError::ServiceError(e))) ==> (final(tr).ready_err matches Some(x) ==> x == e),   // #a_readiness_error_before_a_retry_surfaces_as_service_error [C20]
+            final(tr).ready_err is Some ==> r matches Poll::Ready(Err(ReconnectError::ServiceError(_))),   // #a_readiness_error_ends_the_request [C20]
             r matches Poll::Ready(Err(ReconnectError::MaxAttemptsExceeded { attempts, error })) ==> old(self).config.max_attempts is Some && attempts > old(self).config.max_attempts->0
                 && final(tr).last_done == Some(Err::<Res, E>(*error)) && reconnectable(*old(self).config, *error),   // #gives_up_only_beyond_max_attempts_with_the_last_error [C16]
             r matches Poll::Ready(Err(ReconnectError::ConnectionFailed(e))) ==> final(tr).last_done == Some(Err::<Res, E>(e)) && reconnectable(*old(self).config, e)
